@@ -971,8 +971,10 @@ def transfer_mirror(rtext, mirror, log, where, variant="main", is_fn=True):
             own = any(R[k].text == "continue" and R[k].kind == "id" and not any(a <= k <= b for a, b in inner)
                       for k in range(L["body_open"], L["body_close"]))
             nm10 = names10.get(L["in_idx"])
+            own_break = any(R[k].text == "break" and R[k].kind == "id" and not any(a <= k <= b for a, b in inner)
+                            for k in range(L["body_open"], L["body_close"]))
             if own or (nm10 and re.search(r"\b%s_(all|k)\b" % re.escape(nm10), alltext)):
-                r10[L["in_idx"]] = dict(L, name=None)
+                r10[L["in_idx"]] = dict(L, name=None, own_break=own_break)
     if r10:
         inv_ab = {v: k for k, v in a2b.items()}
         new_ann = []
@@ -998,7 +1000,9 @@ def transfer_mirror(rtext, mirror, log, where, variant="main", is_fn=True):
             for pos, text, glue in ann:
                 if not found and glue == "block" and pos == hdr_pos and re.search(r"\binvariant\b", text):
                     text = re.sub(r"\binvariant\b", "invariant " + auto_inv, text, count=1)
-                    auto_ens = "\nensures %s_k == %s_all.len(),\n" % (nm, nm)
+                    # a loop the repository leaves with its own `break` does not always exhaust the iterator: the
+                    # annotation then states its own loop `ensures` (e.g. `cond || it_k == it_all.len()`)
+                    auto_ens = "\n" if L.get("own_break") else "\nensures %s_k == %s_all.len(),\n" % (nm, nm)
                     md = list(re.finditer(r"\bdecreases\b", text))
                     if md:
                         text = text[:md[-1].start()].rstrip().rstrip(",") + "," + auto_ens + text[md[-1].start():]
